@@ -126,6 +126,30 @@ def translate():
         return False, "translator crashed: %r" % (e,), None, None
 
 
+def use_baseline_gen():
+    """copy the committed baseline translation into Gen/ (used only when the translator fails on the current source)"""
+    src = os.path.join(ROOT, "tools", "gen_baseline")
+    dst = os.path.join(COQ_WORK, "Gen")
+    os.makedirs(dst, exist_ok=True)
+    for fn in ("Models.v", "Consts.v"):
+        text = open(os.path.join(src, fn)).read()
+        path = os.path.join(dst, fn)
+        if not os.path.exists(path) or open(path).read() != text:
+            open(path, "w").write(text)
+
+
+def baseline_models():
+    """model table of the pinned tree (for the case generators when the current source does not translate)"""
+    sys.path.insert(0, os.path.join(ROOT, "tools"))
+    import rs2v
+    try:
+        import tempfile
+        with tempfile.TemporaryDirectory() as td:
+            return rs2v.emit(os.path.join(ROOT, "tools", "gen_baseline", "src_snapshot"), td)
+    except Exception:
+        return None
+
+
 def write_coqproject():
     lines = ["-Q %s %s" % (d, d) for d in QDIRS]
     for d in QDIRS:
@@ -285,7 +309,7 @@ Open Scope Z_scope.
 
 def safe_impl(term):
     """the implementation's output is pasted into a Coq file: accept only the expected alphabet"""
-    return bool(re.fullmatch(r"[A-Za-z0-9_ ;,\[\]\(\)\-]*", term)) and len(term) > 0
+    return bool(re.fullmatch(r"[A-Za-z0-9_ ;,.\[\]\(\)\-]*", term)) and len(term) > 0
 
 
 def eval_shards(prop, corr_module, cases, imports="", per_shard=60, check_name="check", workdir=None, case_type="(pcase * pout)"):
